@@ -13,7 +13,7 @@ Definition is_probe (id : Z) (e : event) : bool := match e with EProbe x => x =?
 
 Definition proj_ep (s : st) (evs : list event) (prox : list Z) (id : Z) : epobs :=
   let mine := filter (fun i => iid i =? id) (incs s) in
-  let cur := find_live (incs s) id in
+  let cur := if cexists s then find_live (incs s) (cgen s) id else None in
   let flag (f : inc -> bool) := match cur with Some i => f i | None => false end in
   mkEpobs (flag (fun _ => true)) (flag disabled) (flag healthy)
           (match cur with Some i => ucount i | None => 0 end)
@@ -59,27 +59,40 @@ Definition result_matches (s : st) (o : op) (r : result) : bool :=
       | Some _, ROk | None, RNoneHeld => true
       | _, _ => false end
   | OTrigger id =>
-      match find_live (incs s) id, r with
+      match (if cexists s then find_live (incs s) (cgen s) id else None), r with
       | Some _, ROk | None, RAbsent => true
       | _, _ => false end
   | OMatch p _ =>
+      if negb (cexists s) then match r with RNoCluster => true | _ => false end else
       match upstreams_of s p, r with
       | Some _, ROk | None, RNoMatch => true
       | _, _ => false end
   | OPop slot =>
       match zlook slot (pickers s) with
       | None => match r with RNoSlot => true | _ => false end
-      | Some ups =>
-          match ready_of (incs s) ups, r with
+      | Some (c, ups) =>
+          match ready_of s c ups, r with
           | [], RNoReady => true
           | rd, RPicked id => existsb (Z.eqb id) rd
           | _, _ => false end
       end
+  | OPickOne slot =>
+      match zlook slot (handles s) with
+      | None => match r with RNoSlot => true | _ => false end
+      | Some c =>
+          match ready_of s c (live_ids (incs s) c), r with
+          | [], RNoReady => true
+          | rd, RPicked id => existsb (Z.eqb id) rd
+          | _, _ => false end
+      end
+  | OHold _ => match r with ROk => cexists s | RNoCluster => negb (cexists s) | _ => false end
+  | ODelete => match r with ROk => true | _ => false end
   | ORequest p =>
+      if negb (cexists s) then match r with RHttp code stub => (code =? 503) && (stub =? -1) | _ => false end else
       match upstreams_of s p, r with
       | None, RHttp code stub => (code =? 500) && (stub =? -1)
       | Some ups, RHttp code stub =>
-          match ready_of (incs s) ups with
+          match ready_of s (cgen s) ups with
           | [] => (code =? 503) && (stub =? -1)
           | rd => (code =? 200) && existsb (Z.eqb stub) rd
           end
